@@ -655,9 +655,20 @@ func (d *decoder) parseDataFields(dm *defmsg, knownMsg bool, msgv reflect.Value)
 		}
 
 		if padding != 0 {
+			// Sign extend narrow signed integers.
+			fill := byte(0x00)
+			if dfield.btype.Signed() && dfield.btype.Integer() && dsize > 0 {
+				msb := d.tmp[0]
+				if dm.arch == le {
+					msb = d.tmp[dsize-1]
+				}
+				if msb&0x80 != 0 {
+					fill = 0xFF
+				}
+			}
 			if dm.arch == le {
 				for j := dsize; j < pfield.t.BaseType().Size(); j++ {
-					d.tmp[j] = 0x00
+					d.tmp[j] = fill
 				}
 			} else if pfield.t.Kind() != types.NativeFit {
 				// Right-align the value in the profile sized word.
@@ -665,7 +676,7 @@ func (d *decoder) parseDataFields(dm *defmsg, knownMsg bool, msgv reflect.Value)
 				// bytes using the definition's base type.
 				copy(d.tmp[padding:padding+dsize], d.tmp[:dsize])
 				for j := 0; j < padding; j++ {
-					d.tmp[j] = 0x00
+					d.tmp[j] = fill
 				}
 			}
 		}
@@ -722,15 +733,15 @@ func (d *decoder) parseFitField(dm *defmsg, dfield fieldDef, fieldv reflect.Valu
 	case types.BaseByte, types.BaseEnum, types.BaseUint8, types.BaseUint8z:
 		fieldv.SetUint(uint64(d.tmp[0]))
 	case types.BaseSint8:
-		fieldv.SetInt(int64(d.tmp[0]))
+		fieldv.SetInt(int64(int8(d.tmp[0])))
 	case types.BaseSint16:
-		i16 := int64(dm.arch.Uint16(d.tmp[:dsize]))
+		i16 := int64(int16(dm.arch.Uint16(d.tmp[:dsize])))
 		fieldv.SetInt(i16)
 	case types.BaseUint16, types.BaseUint16z:
 		u16 := uint64(dm.arch.Uint16(d.tmp[:dsize]))
 		fieldv.SetUint(u16)
 	case types.BaseSint32:
-		i32 := int64(dm.arch.Uint32(d.tmp[:dsize]))
+		i32 := int64(int32(dm.arch.Uint32(d.tmp[:dsize])))
 		fieldv.SetInt(i32)
 	case types.BaseUint32, types.BaseUint32z:
 		u32 := uint64(dm.arch.Uint32(d.tmp[:dsize]))
